@@ -37,6 +37,14 @@ impl ByteCompiler<'_> {
                 actions.push(JumpRecordAction::Transfer { index: i as u32 });
                 break;
             }
+
+            // The statement that is the target closes its own iterator, every other
+            // `for-of` loop that the `break` leaves has to be closed here.
+            if info.iterator_loop() {
+                actions.push(JumpRecordAction::CloseIterator {
+                    r#async: info.for_await_of_loop(),
+                });
+            }
         }
 
         actions.reverse();
